@@ -264,14 +264,19 @@ def maskedEigs [Mul α] [Zero α] [One α] {d : Nat} (ps : Option Nat) (e : Vec 
   | none => e
   | some _ => fun i => e i * ixMask ps (d - 1 - i.val)
 
-/-- `inv_e = where(e == 0, 0, power(maximum(e, ridge), alpha))`; `pw x = x ^ alpha` -/
-def invEigs [Zero α] [BEq α] [Max α] {d : Nat} (pw : α → α) (ridge : α) (e : Vec α d) : Vec α d :=
-  fun i => if e i == 0 then 0 else pw (max (e i) ridge)
+/-- `clipped_e = maximum(e, ridge); inv_e = where(logical_or(e == 0, clipped_e <= 0), 0, power(clipped_e, alpha))`;
+`pw x = x ^ alpha`.  (Repaired, D26: with a zero ridge a non-positive eigenvalue is treated like an exact zero
+instead of being raised to a negative power.) -/
+def invEigs [Zero α] [BEq α] [Max α] [LE α] [DecidableLE α] {d : Nat} (pw : α → α) (ridge : α) (e : Vec α d) :
+    Vec α d :=
+  fun i =>
+    let clipped := max (e i) ridge
+    if (e i == 0) || decide (clipped ≤ 0) then 0 else pw clipped
 
 /-- everything after `eigh` up to the fields handed to `_low_rank_pack`.
 `r = |compression_rank|`, `neg = compression_rank < 0`.  The roll for `neg` is by the number of padded
 dimensions `num_pad = d - padding_start`, `0` when `padding_start is None` (repaired, D21). -/
-def lowRankRootFields [Add α] [Mul α] [Div α] [Zero α] [One α] [BEq α] [Max α] [NatCast α]
+def lowRankRootFields [Add α] [Mul α] [Div α] [Zero α] [One α] [BEq α] [Max α] [LE α] [DecidableLE α] [NatCast α]
     {d r : Nat} (hr : r ≤ d) (pw : α → α) (neg : Bool) (ps : Option Nat) (ridge : α)
     (e : Vec α d) (U : Mat α d d) : LRFields α d r :=
   let realDim := ps.getD d
@@ -289,7 +294,7 @@ def lowRankRootFields [Add α] [Mul α] [Div α] [Zero α] [One α] [BEq α] [Ma
   { eigvecs := uKeep, invEigvals := keepE, const := sumFin (d - r) toAvg / den, hasZeros := false }
 
 /-- `_low_rank_root` after `eigh`: pack, and return zeros when `padding_start == 0` -/
-def lowRankRoot [Add α] [Mul α] [Div α] [Zero α] [One α] [BEq α] [Max α] [NatCast α]
+def lowRankRoot [Add α] [Mul α] [Div α] [Zero α] [One α] [BEq α] [Max α] [LE α] [DecidableLE α] [NatCast α]
     {d r : Nat} (h : r + 2 < d) (pw : α → α) (neg : Bool) (ps : Option Nat) (ridge : α)
     (e : Vec α d) (U : Mat α d d) : Mat α d (r + 2) :=
   let F := lowRankRootFields (r := r) (by omega) pw neg ps ridge e U
@@ -301,7 +306,7 @@ def lowRankRoot [Add α] [Mul α] [Div α] [Zero α] [One α] [BEq α] [Max α] 
 
 /-- `_low_rank_root` with `eigh` (and the real power `pw`, the power-iteration estimate `maxEv`)
 as parameters. -/
-def lowRankRootOf [Add α] [Mul α] [Div α] [Zero α] [One α] [BEq α] [Max α] [NatCast α]
+def lowRankRootOf [Add α] [Mul α] [Div α] [Zero α] [One α] [BEq α] [Max α] [LE α] [DecidableLE α] [NatCast α]
     {d r : Nat} (h : r + 2 < d) (eigh : Mat α d d → Vec α d × Mat α d d) (pw : α → α)
     (neg : Bool) (ps : Option Nat) (ridgeEps maxEv tol : α) (A : Mat α d d) : Mat α d (r + 2) :=
   let ridge := ridgeOf ridgeEps maxEv tol
